@@ -77,6 +77,13 @@ Proof.
   intros. unfold rem. rewrite filter_In, negb_true_iff, N.eqb_neq. tauto.
 Qed.
 
+Lemma filter_mem_incl : forall l m, incl l m -> filter (fun r => mem r m) l = l.
+Proof.
+  induction l as [|y r IH]; simpl; intros m I; [reflexivity|].
+  assert (M : mem y m = true) by (apply mem_In; apply I; left; reflexivity).
+  rewrite M. f_equal. apply IH. intros x Hx. apply I. right. exact Hx.
+Qed.
+
 (* strictly increasing lists *)
 Definition sorted (l : list N) : Prop := StronglySorted N.lt l.
 
@@ -306,10 +313,6 @@ Qed.
 
 (* ------------------------------------------------------------------------------------------------ C10 *)
 
-(* guard for finding 6: the operation is not a non-revert link onto a kept revision that is marked NotBlocked *)
-Definition rs_guard (o : op) (s : st) : Prop :=
-  is_revert o = true \/ ~ In (orev o) (nb s).
-
 (* guard for finding 13: the snap has some configuration, or nothing can write configuration during the change *)
 Definition cfg_guard (o : op) (s : st) : Prop :=
   cfg s <> 0 \/ seq s = [] \/
@@ -346,7 +349,7 @@ Proof.
   cbn [fst snd].
   assert (U : forall cf, forget (undo_link o
       (mkLD (chan s) (ignoreval s) (trymode s) (devmode s) (jailmode s) (classic s) (cur s) None (inhib s)
-            (lastref s) (cohort s) [] None)
+            (lastref s) (cohort s) [] (Some (nb s)))
       (mkSt (seq s ++ [orev o]) (orev o) true (if ochan o =? 0 then chan s else ochan o) (odev o) (ojail o) (oclassic o)
             (otry o) (oignore o) (ocohort o) (onow o) 0 (rem (orev o) (nb s)) cf
             (save_rev_cfg (cur s) (cfg s) (revcfg s)) (mounted s) (orev o)))
@@ -357,8 +360,9 @@ Proof.
     cbn [old_cur old_rs revcfg nb cfg].
     replace (remove_at (length (seq s)) (seq s ++ [orev o])) with (seq s)
       by (rewrite remove_at_app, app_nil_r; reflexivity).
-    rewrite NR.
+    try rewrite NR.
     rewrite rem_notin by (intros I; apply NI; apply NB; exact I).
+    rewrite (filter_mem_incl _ _ NB).
     rewrite SQ. unfold norm, forget. cbn. reflexivity. }
   destruct h.
   - unfold do_configure. cbn [ohookcfg]. destruct (ohookcfg o =? 0) eqn:HK.
@@ -398,7 +402,7 @@ Proof.
 Qed.
 
 Lemma link_roundtrip_kept : forall o s (h : bool),
-  NoDup (seq s) -> In (orev o) (seq s) -> is_revert o = false -> ~ In (orev o) (nb s) ->
+  NoDup (seq s) -> In (orev o) (seq s) -> is_revert o = false -> incl (nb s) (seq s) ->
   cfg_guard o s ->
   forget (undo_link o (snd (do_link o s)) ((if h then do_configure o else fun x => x) (fst (do_link o s))))
   = forget (set_active_link false 0 s).
@@ -416,7 +420,7 @@ Proof.
   rewrite R1, R2.
   assert (U : forall cf, forget (undo_link o
       (mkLD (chan s) (ignoreval s) (trymode s) (devmode s) (jailmode s) (classic s) (cur s) (Some i) (inhib s)
-            (lastref s) (cohort s) a None)
+            (lastref s) (cohort s) a (Some (nb s)))
       (mkSt ((a ++ b) ++ [orev o]) (orev o) true (if ochan o =? 0 then chan s else ochan o) (odev o) (ojail o) (oclassic o)
             (otry o) (oignore o) (ocohort o) (onow o) 0 (rem (orev o) (nb s)) cf
             (save_rev_cfg (cur s) (cfg s) (revcfg s)) (mounted s) (orev o)))
@@ -425,7 +429,7 @@ Proof.
              (mounted s) 0).
   { intros cf. unfold undo_link. cbn [cur seq old_cand old_before]. rewrite L1. rewrite NR.
     cbn [old_cur old_rs revcfg nb cfg]. rewrite <- LA. rewrite L2.
-    rewrite rem_notin by exact NB. rewrite <- SQ.
+    rewrite <- SQ. rewrite (filter_mem_incl _ _ NB).
     destruct (seq s) as [|x0 l0] eqn:SQ2; [congruence|]. unfold norm, forget. cbn. reflexivity. }
   destruct h.
   - unfold do_configure. cbn [ohookcfg]. destruct (ohookcfg o =? 0) eqn:HK.
@@ -441,12 +445,12 @@ Proof.
 Qed.
 
 Lemma link_roundtrip_revert : forall o s (h : bool),
-  NoDup (seq s) -> In (orev o) (seq s) -> is_revert o = true ->
+  NoDup (seq s) -> In (orev o) (seq s) -> is_revert o = true -> incl (nb s) (seq s) ->
   cfg_guard o s ->
   forget (undo_link o (snd (do_link o s)) ((if h then do_configure o else fun x => x) (fst (do_link o s))))
   = forget (set_active_link false 0 s).
 Proof.
-  intros o s h ND IN RV CG.
+  intros o s h ND IN RV NB CG.
   unfold do_link. rewrite RV.
   destruct (last_index (orev o) (seq s)) as [i|] eqn:LI; [|apply last_index_none in LI; tauto].
   assert (NE : seq s <> []) by (destruct (seq s); [destruct IN|discriminate]).
@@ -462,7 +466,7 @@ Proof.
       = mkSt (seq s) (cur s) false (chan s) (devmode s) (jailmode s) (classic s) (trymode s) (ignoreval s) (cohort s)
              (lastref s) (inhib s) (nb s) (restore_rev_cfg (cur s) cf rc1) [] (mounted s) 0).
   { intros cf. unfold undo_link. cbn [cur seq old_cand old_before]. rewrite LI. rewrite RV.
-    cbn [old_cur old_rs revcfg nb cfg].
+    cbn [old_cur old_rs revcfg nb cfg]. rewrite (filter_mem_incl _ _ NB).
     destruct (seq s) as [|x0 l0] eqn:SQ2; [congruence|]. unfold norm, forget. cbn. reflexivity. }
   assert (G : forall cf, cfg s <> 0 -> restore_rev_cfg (cur s) cf rc1 = cfg s) by (intros; apply restore_after_save; auto).
   destruct h.
@@ -509,11 +513,10 @@ Proof. intros [] A L. simpl in *. subst. reflexivity. Qed.
 Lemma link_tail : forall o c X k,
   NoDup (seq X) -> seq X <> [] -> incl (nb X) (seq X) -> active X = false -> link X = 0 ->
   (is_revert o = true -> In (orev o) (seq X)) ->
-  (is_revert o = false -> ~ In (orev o) (nb X)) ->
   cfg_guard o X ->
   forget (run_fail o c (firstn k [(KLink, orev o); (KConfigure, orev o)]) X) = forget X.
 Proof.
-  intros o c X k ND NE NB A L RV RS CG.
+  intros o c X k ND NE NB A L RV CG.
   assert (T : forall h : bool,
     forget (undo_link o (snd (do_link o X)) ((if h then do_configure o else fun x => x) (fst (do_link o X)))) = forget X).
   { intros h. rewrite <- (forget_inactive X A L).
@@ -534,10 +537,10 @@ Lemma firstn_cons_S : forall (x : task) l k, firstn (S k) (x :: l) = x :: firstn
 Proof. reflexivity. Qed.
 
 Lemma core_restores : forall s o c k,
-  wf s -> c10_op o -> accepts o s = true -> rs_guard o s -> cfg_guard o s ->
+  wf s -> c10_op o -> accepts o s = true -> cfg_guard o s ->
   forget (run_fail o c (firstn k (ess_pre o s ++ [(KConfigure, orev o)])) s) = forget s.
 Proof.
-  intros s o c k W OP AC RS CG.
+  intros s o c k W OP AC CG.
   destruct W as [W1 W2 W3 W4 W5 W6 W7 W8].
   unfold ess_pre. unfold accepts in AC.
   destruct OP as [K|[K|K]]; rewrite K in AC.
@@ -569,8 +572,6 @@ Proof.
     assert (NE : seq s <> []) by (rewrite SQ; discriminate).
     assert (NM : norm (set_active_link false 0 s) = set_active_link false 0 s).
     { unfold norm. simpl. rewrite SQ. reflexivity. }
-    assert (RSG : is_revert o = false -> ~ In (orev o) (nb s)).
-    { intros _. destruct RS as [R|R]; [congruence|exact R]. }
     assert (FIN : forget (undo_unlink_current (set_active_link false 0 s)) = forget s).
     { unfold undo_unlink_current, norm, set_active_link, forget. simpl. rewrite SQ. simpl. rewrite W8.
       match goal with H : active s = true |- _ => rewrite H end. reflexivity. }
@@ -580,7 +581,7 @@ Proof.
       destruct k as [|k]; [reflexivity|]. rewrite firstn_cons_S. cbn [run_fail do_task fst snd undo_task].
       unfold do_unlink_current. rewrite NM.
       rewrite (forget_cong_uc _ (set_active_link false 0 s)); [exact FIN|].
-      apply link_tail; simpl; auto. intros; apply mem_In; auto.
+      apply link_tail; simpl; auto; intros; apply mem_In; auto.
     + (* to a new revision *)
       apply mem_false in M.
       cbn [app].
@@ -597,7 +598,7 @@ Proof.
       { unfold undo_unlink_current, norm, set_active_link, forget, s1, do_mount. simpl. rewrite SQ. simpl. rewrite W8.
         match goal with H : active s = true |- _ => rewrite H end. reflexivity. }
       rewrite (forget_cong_uc _ (set_active_link false 0 s1)); [exact FIN1|].
-      apply link_tail; simpl; auto. congruence.
+      apply link_tail; simpl; auto; congruence.
   - (* revert *)
     bool_hyps.
     assert (RV : is_revert o = true) by (unfold is_revert; rewrite K; reflexivity).
@@ -614,7 +615,7 @@ Proof.
     destruct k as [|k]; [reflexivity|]. rewrite firstn_cons_S. cbn [run_fail do_task fst snd undo_task].
     unfold do_unlink_current. rewrite NM.
     rewrite (forget_cong_uc _ (set_active_link false 0 s)); [exact FIN|].
-    apply link_tail; simpl; auto. congruence.
+    apply link_tail; simpl; auto; congruence.
 Qed.
 
 (* C10: every reachable (well-formed) state, every install / refresh / revert the entry points accept, every failure
@@ -622,10 +623,10 @@ Qed.
 Theorem failed_op_restores : forall s o j retain inuse,
   wf s -> c10_op o -> accepts o s = true ->
   forallb (fun t => negb (is_discard t)) (firstn j (tasks_for o s retain inuse)) = true ->
-  rs_guard o s -> cfg_guard o s ->
+  cfg_guard o s ->
   forget (run_change o (S j) (tasks_for o s retain inuse) s) = forget s.
 Proof.
-  intros s o j retain inuse W OP AC ND RS CG.
+  intros s o j retain inuse W OP AC ND CG.
   rewrite run_change_fail, run_fail_strip.
   assert (T : tasks_for o s retain inuse = install_tasks o s retain inuse).
   { unfold tasks_for. destruct OP as [K|[K|K]]; rewrite K; reflexivity. }
@@ -678,12 +679,13 @@ Proof.
   constructor; simpl; try tauto; try constructor. intros x [].
 Qed.
 
-(* finding 6 on the model: refresh (not a revert) to the kept revision 3, failure right after link-snap *)
-Lemma revert_status_lost :
+(* finding 6 (repaired in /repo by 5dcb85f): refresh (not a revert) to the kept revision 3, failure right after link-snap:
+   the RevertStatus entry of 3 and Block() are as before *)
+Lemma revert_status_restored :
   let o := mk_refresh 3 0 9 in let ts := tasks_for o s_reverted 3 no_inuse in
   accepts o s_reverted = true /\
   forallb (fun t => negb (is_discard t)) (firstn 9 ts) = true /\
-  nb (run_change o 10 ts s_reverted) = [] /\ block s_reverted = [2] /\ block (run_change o 10 ts s_reverted) = [2;3].
+  nb (run_change o 10 ts s_reverted) = [3] /\ block s_reverted = [2] /\ block (run_change o 10 ts s_reverted) = [2].
 Proof. vm_compute. repeat split; reflexivity. Qed.
 
 (* finding 7 on the model: refresh of [1,2] to the new revision 3 with retain 2, failure after discard-snap of 1 *)
